@@ -49,6 +49,9 @@ def cell_types(prog, interp):
 
 def run_case(case):
     prog = case["prog"]
+    if known.active("shared-network-leak") and lang.shared_source_shape(prog, ignore_reads=True):
+        # open finding F-leak: an input that feeds two enable / data trees (equal sub-expressions are one combinator after CSE)
+        return {"discard": "excluded:F-leak", "counters": {"excluded_by:F-leak": 1}}
     text, res = common.compile_case(case)
     if not res.accepted:
         return common.reject_result(res)
